@@ -458,3 +458,369 @@ Proof.
 Qed.
 
 End Contract.
+
+(* ------------------------------------------------------------------------------------------ *)
+(* Part 2: the DP master                                                                        *)
+
+From PB Require Import DpMaster DpStepProofs C14Proofs ScanBase LiveList Scan C18Proofs AppsGlue.
+
+(* What the master needs of a peripheral.  These are the (undocumented) preconditions of
+   `Peripheral::new` / `PeripheralOptions`: a 7-bit address; an output image, Chk_Cfg data and user
+   parameters that fit one telegram (PDU <= 244 bytes with both SAPs: length_byte <= 249; Set_Prm has 7
+   fixed bytes).  The frame count bit of a peripheral is never Inactive (the code only ever assigns
+   First / High / Low).  Nothing is required of the retry counter, the input image, the diagnostics
+   storage or the state. *)
+Definition periph_ok (p : periph) : Prop :=
+  0 <= pe_addr p < 128 /\ pe_fcb p <> FcbInactive /\ (length (pe_pi_q p) <= 244)%nat /\
+  match o_user_prm (pe_opts p) with Some u => (length u <= 237)%nat | None => True end /\
+  match o_config (pe_opts p) with Some c => (length c <= 244)%nat | None => True end.
+
+Definition slots_ok (l : list (option periph)) : Prop :=
+  forall i p, nth_error l i = Some (Some p) -> (i <= 255)%nat /\ periph_ok p.
+
+(* DpRep: every occupied slot has an index that fits the u8 of a handle (PeripheralSet::add panics
+   before it would create another one) and holds a peripheral satisfying periph_ok; the time of the last
+   global control telegram is a time the station passed in.  ANY number of slots (including none), any
+   occupancy pattern, any cycle state, any operating state (Stop included), any pending events. *)
+Definition DpRep (m : dpm) : Prop :=
+  slots_ok (dm_slots m) /\ match dm_last_gc m with Some t => time_ok t | None => True end.
+
+(* the master waits for the reply from da: the peripheral the cycle index points to has address da *)
+Definition dp_waiting (m : dpm) (da : Z) : Prop :=
+  exists index hd p, dm_cycle m = CyDataExchange index /\
+    get_at_index (dm_slots m) index = Ok (Some (hd, p)) /\ pe_addr p = da.
+
+(* what the station delivers as a reply: never a token, never a request *)
+Definition reply_shape (t : telegram) : Prop :=
+  match t with
+  | TToken _ _ => False
+  | TShortConf => True
+  | TData h _ => exists st s, h_fc h = FcResponse st s
+  end.
+
+Lemma reply_ok_shape tsa addr t : reply_ok tsa addr t -> reply_shape t.
+Proof.
+  intros [->|(h & pdu & st & s & -> & Hfc & _)]; [exact I|]. exists st, s. exact Hfc.
+Qed.
+
+(* ---- the slot vector *)
+
+Lemma nth_error_put_slot (l : list (option periph)) : forall i p j,
+  nth_error (put_slot l i p) j =
+  if (Nat.eqb j i && Nat.ltb i (length l))%bool then Some (Some p) else nth_error l j.
+Proof.
+  induction l as [|x l IH]; intros [|i] p [|j]; cbn [put_slot nth_error length]; try reflexivity.
+  - rewrite andb_false_r. reflexivity.
+  - rewrite IH. cbn [Nat.eqb]. replace (Nat.ltb (S i) (S (length l))) with (Nat.ltb i (length l)); [reflexivity|].
+    destruct (Nat.ltb_spec i (length l)), (Nat.ltb_spec (S i) (S (length l))); try reflexivity; lia.
+Qed.
+
+Lemma slots_ok_put l i p : slots_ok l -> (i <= 255)%nat -> periph_ok p -> slots_ok (put_slot l i p).
+Proof.
+  intros S Hi Hp j q E. rewrite nth_error_put_slot in E.
+  destruct (Nat.eqb_spec j i) as [->|Ne]; cbn [andb] in E.
+  - destruct (Nat.ltb i (length l)); [injection E as <-; split; assumption|apply S; exact E].
+  - apply S; exact E.
+Qed.
+
+Lemma find_occupied_spec (l : list (option periph)) : forall j i p,
+  find_occupied l j = Some (i, p) <->
+  exists k, i = (j + k)%nat /\ nth_error l k = Some (Some p) /\ forall k', (k' < k)%nat -> nth_error l k' = Some None.
+Proof.
+  induction l as [|x l IH]; intros j i p.
+  - cbn. split; [discriminate|]. intros (k & _ & E & _). destruct k; discriminate E.
+  - destruct x as [q|]; cbn [find_occupied].
+    + split.
+      * intros E. injection E as <- <-. exists 0%nat. split; [lia|]. split; [reflexivity|]. intros k' L; lia.
+      * intros (k & -> & E & Hb). destruct k as [|k].
+        -- cbn in E. injection E as <-. f_equal. f_equal. lia.
+        -- specialize (Hb 0%nat ltac:(lia)). discriminate Hb.
+    + rewrite IH. split.
+      * intros (k & -> & E & Hb). exists (S k). split; [lia|]. split; [exact E|].
+        intros [|k'] L; [reflexivity|]. cbn. apply Hb. lia.
+      * intros (k & -> & E & Hb). destruct k as [|k]; [discriminate E|].
+        exists k. split; [lia|]. split; [exact E|]. intros k' L. apply (Hb (S k')). lia.
+Qed.
+
+Lemma find_occupied_none (l : list (option periph)) : forall j,
+  find_occupied l j = None -> forall k p, nth_error l k <> Some (Some p).
+Proof.
+  induction l as [|x l IH]; intros j E k p; [destruct k; discriminate|].
+  destruct x as [q|]; cbn in E; [discriminate E|].
+  destruct k as [|k]; cbn; [discriminate|]. eapply IH. exact E.
+Qed.
+
+(* get_at_index under slots_ok: no panic; the result is an occupied slot *)
+Lemma get_at_index_ok l index : slots_ok l ->
+  get_at_index l index = Ok None \/
+  exists i p, get_at_index l index = Ok (Some (mkHandle i (pe_addr p), p)) /\
+              nth_error l i = Some (Some p) /\ (i <= 255)%nat /\ periph_ok p /\ (i < length l)%nat.
+Proof.
+  intros S. unfold get_at_index.
+  destruct (find_occupied (skipn index l) index) as [[i p]|] eqn:Ef; [right|left; reflexivity].
+  destruct (find_occupied_nth _ _ _ _ Ef) as (k & -> & Hn). rewrite nth_error_skipn' in Hn.
+  destruct (S _ _ Hn) as (Hi & Hp). exists (index + k)%nat, p.
+  unfold u8_index. destruct (Nat.ltb_spec 255 (index + k)) as [L|_]; [lia|]. cbn [bind].
+  split; [reflexivity|]. split; [exact Hn|]. split; [exact Hi|]. split; [exact Hp|].
+  apply nth_error_Some. congruence.
+Qed.
+
+(* replacing the peripheral that get_at_index found keeps it the one that is found *)
+Lemma get_at_index_put l index i p p1 :
+  get_at_index l index = Ok (Some (mkHandle i (pe_addr p), p)) -> (i <= 255)%nat ->
+  get_at_index (put_slot l i p1) index = Ok (Some (mkHandle i (pe_addr p1), p1)).
+Proof.
+  unfold get_at_index. intros E Hi.
+  destruct (find_occupied (skipn index l) index) as [[i0 q]|] eqn:Ef; [|discriminate E].
+  unfold u8_index in E. destruct (Nat.ltb 255 i0); [discriminate E|]. cbn [bind] in E.
+  injection E as <- _ <-.
+  apply find_occupied_spec in Ef. destruct Ef as (k & -> & Hn & Hb).
+  assert (Ef' : find_occupied (skipn index (put_slot l (index + k) p1)) index = Some ((index + k)%nat, p1)).
+  { apply find_occupied_spec. exists k. split; [reflexivity|].
+    rewrite nth_error_skipn' in Hn.
+    assert (Hl : (index + k < length l)%nat) by (apply nth_error_Some; congruence).
+    split.
+    - rewrite nth_error_skipn', nth_error_put_slot, Nat.eqb_refl.
+      destruct (Nat.ltb_spec (index + k) (length l)); [reflexivity|lia].
+    - intros k' L. rewrite nth_error_skipn', nth_error_put_slot.
+      destruct (Nat.eqb_spec (index + k') (index + k)); [lia|]. cbn [andb].
+      rewrite <- nth_error_skipn'. apply Hb. exact L. }
+  rewrite Ef'. unfold u8_index. destruct (Nat.ltb_spec 255 (index + k)); [lia|]. reflexivity.
+Qed.
+
+Lemma occupied_from_in (l : list (option periph)) : forall j i,
+  In i (occupied_from l j) -> exists k p, i = (j + k)%nat /\ nth_error l k = Some (Some p).
+Proof.
+  induction l as [|x l IH]; intros j i H; [contradiction H|].
+  destruct x as [q|]; cbn [occupied_from] in H.
+  - destruct H as [<-|H].
+    + exists 0%nat, q. split; [lia|reflexivity].
+    + destruct (IH _ _ H) as (k & p & -> & E). exists (S k), p. split; [lia|exact E].
+  - destruct (IH _ _ H) as (k & p & -> & E). exists (S k), p. split; [lia|exact E].
+Qed.
+
+Lemma increment_cycle_ok m index : slots_ok (dm_slots m) ->
+  exists c comp, increment_cycle m index = Ok (set_cycle m c, comp).
+Proof.
+  intros S. unfold increment_cycle, get_next_index.
+  destruct (occupied_from (skipn index (dm_slots m)) index) as [|a [|b r]] eqn:Eo; cbn [bind].
+  - eexists; eexists; reflexivity.
+  - eexists; eexists; reflexivity.
+  - assert (Hb : In b (occupied_from (skipn index (dm_slots m)) index)) by (rewrite Eo; right; left; reflexivity).
+    destruct (occupied_from_in _ _ _ Hb) as (k & p & -> & E). rewrite nth_error_skipn' in E.
+    destruct (S _ _ E) as (Hi & _). unfold u8_index. destruct (Nat.ltb_spec 255 (index + k)); [lia|].
+    cbn [bind]. eexists; eexists; reflexivity.
+Qed.
+
+(* ---- telegrams *)
+
+Lemma send_data_ok h pdu : wf_header h -> (length_byte h (length pdu) <= 249)%nat ->
+  send_data tx_buffer_size h pdu = Ok (frame_spec h pdu, tx_expects_reply h) /\
+  Z.of_nat (length (frame_spec h pdu)) <= 65536.
+Proof.
+  intros Wf Hlb.
+  assert (Htl : (telegram_len_data h (length pdu) <= 255)%nat).
+  { unfold telegram_len_data. destruct (_ || _)%bool; lia. }
+  unfold send_data. rewrite encode_data_in_spec; [|exact Wf|exact Hlb|unfold tx_buffer_size; lia].
+  cbn [bind]. split; [reflexivity|]. rewrite frame_spec_length. lia.
+Qed.
+
+Lemma expects_reply_da h da : tx_expects_reply h = Some da -> da = h_da h.
+Proof.
+  unfold tx_expects_reply. destruct (h_fc h) as [fcb r|]; [|discriminate].
+  destruct (req_expects_reply r); [|discriminate]. intros E. injection E as <-. reflexivity.
+Qed.
+
+Lemma bv_addr_retry pa : builder_valid pa -> 0 <= p_address pa <= 125 /\ p_max_retry pa <= 15.
+Proof.
+  unfold builder_valid, builder_max_address, builder_max_retry. intros (Ha & _ & _ & _ & _ & Hr & _). lia.
+Qed.
+
+(* ---- one peripheral *)
+
+Lemma fcb_cycle_total f : f <> FcbInactive -> exists f', fcb_cycle f = Ok f' /\ f' <> FcbInactive.
+Proof.
+  intros H. unfold fcb_cycle. destruct f; cbn; try (eexists; split; [reflexivity|discriminate]). contradiction H. reflexivity.
+Qed.
+
+Definition request_ok (p : periph) (r : ptx) : Prop :=
+  match r with
+  | PtxSend h pdu => wf_header h /\ (length_byte h (length pdu) <= 249)%nat /\ h_da h = pe_addr p
+  | PtxSkip _ => True
+  end.
+
+(* Peripheral::transmit_telegram: total for every state of the peripheral and every retry counter *)
+Lemma p_transmit_total pa op p : builder_valid pa -> op <> OpStop -> periph_ok p ->
+  exists p1 r, p_transmit pa op p = Ok (p1, r) /\ periph_ok p1 /\ pe_addr p1 = pe_addr p /\ request_ok p r.
+Proof.
+  intros B Hop (Ha & Hf & Hq & Hu & Hc). destruct (bv_addr_retry pa B) as (Hts & Hmr).
+  unfold p_transmit. rewrite (opstate_eqb_stop op Hop). unfold p_transmit_select, dp_retry_exhausted.
+  destruct (Z.ltb_spec (p_max_retry pa) (pe_retry p)) as [Hex|Hex].
+  { eexists; eexists. split; [reflexivity|]. cbn. unfold periph_ok. cbn. repeat split; try assumption; try lia. discriminate. }
+  assert (Hr : (255 <=? pe_retry p) = false) by (apply Z.leb_gt; lia).
+  assert (Wf : forall ds ss fc, wf_sap ds -> wf_sap ss -> wf_header (mkHeader (pe_addr p) (p_address pa) ds ss fc)).
+  { intros ds ss fc W1 W2. unfold wf_header, is_addr7. cbn. repeat split; try assumption; lia. }
+  assert (Wdiag : wf_sap dp_diag_dsap /\ wf_sap dp_diag_ssap) by (split; cbv; split; congruence).
+  assert (Wprm : wf_sap dp_prm_dsap /\ wf_sap dp_prm_ssap) by (split; cbv; split; congruence).
+  assert (Wcfg : wf_sap dp_cfg_dsap /\ wf_sap dp_cfg_ssap) by (split; cbv; split; congruence).
+  assert (Wdx : wf_sap dp_dx_dsap /\ wf_sap dp_dx_ssap) by (split; cbv; split; congruence).
+  assert (Pok : periph_ok p) by (unfold periph_ok; tauto).
+  assert (Diag : forall q, periph_ok q -> pe_addr q = pe_addr p -> pe_retry q = pe_retry p ->
+    exists p1 r, (let (p1, r) := (q, diag_request pa q) in
+                  match r with
+                  | PtxSend _ _ => if 255 <=? pe_retry p1 then Panic SiteArith else Ok (set_retry p1 (pe_retry p1 + 1), r)
+                  | PtxSkip _ => Ok (set_retry p1 0, r)
+                  end) = Ok (p1, r) /\ periph_ok p1 /\ pe_addr p1 = pe_addr p /\ request_ok p r).
+  { intros q Qok Qa Qr. unfold diag_request. cbv iota beta. rewrite Qr, Hr.
+    eexists; eexists. split; [reflexivity|]. split; [exact Qok|]. split; [exact Qa|].
+    cbn [request_ok]. rewrite Qa. split; [apply Wf; apply Wdiag|]. split; [|reflexivity].
+    unfold length_byte. cbn. lia. }
+  destruct (pe_state p) eqn:Hst.
+  - destruct (pe_retry p =? dp_offline_probe_retry).
+    + apply Diag; [exact Pok|reflexivity|reflexivity].
+    + eexists; eexists. split; [reflexivity|]. cbn. unfold periph_ok. cbn. repeat split; try assumption; try lia. discriminate.
+  - destruct (o_user_prm (pe_opts p)) as [user|] eqn:Eu.
+    + unfold prm_request. rewrite Hr. eexists; eexists. split; [reflexivity|]. split; [exact Pok|]. split; [reflexivity|].
+      cbn [request_ok]. split; [apply Wf; apply Wprm|]. split; [|reflexivity].
+      unfold length_byte, set_prm_pdu. cbn [h_dsap h_ssap]. rewrite app_length. cbn. lia.
+    + eexists; eexists. split; [reflexivity|]. split; [exact Pok|]. split; [reflexivity|exact I].
+  - destruct (o_config (pe_opts p)) as [cfg|] eqn:Ec.
+    + unfold cfg_request. rewrite Hr. eexists; eexists. split; [reflexivity|]. split; [exact Pok|]. split; [reflexivity|].
+      cbn [request_ok]. split; [apply Wf; apply Wcfg|]. split; [|reflexivity].
+      unfold length_byte. cbn. lia.
+    + eexists; eexists. split; [reflexivity|]. split; [exact Pok|]. split; [reflexivity|exact I].
+  - apply Diag; [exact Pok|reflexivity|reflexivity].
+  - set (q := if pe_retry p =? 0 then set_diag_in_flight p (pe_diag_needed p) else p).
+    assert (Q : periph_ok q /\ pe_addr q = pe_addr p /\ pe_retry q = pe_retry p /\ pe_pi_q q = pe_pi_q p)
+      by (unfold q; destruct (pe_retry p =? 0); cbn; tauto).
+    destruct Q as (Qok & Qa & Qr & Qq). clearbody q.
+    destruct (pe_diag_in_flight q); [apply Diag; assumption|].
+    unfold dx_request. rewrite Qr, Hr. eexists; eexists. split; [reflexivity|]. split; [exact Qok|]. split; [exact Qa|].
+    cbn [request_ok]. rewrite Qa. split; [apply Wf; apply Wdx|]. split; [|reflexivity].
+    unfold length_byte, dx_pdu. cbn [h_dsap h_ssap]. rewrite Qq.
+    destruct (opstate_eqb op OpOperate); rewrite ?repeat_length; cbn; lia.
+  - set (q := if pe_retry p =? 0 then set_diag_in_flight p (pe_diag_needed p) else p).
+    assert (Q : periph_ok q /\ pe_addr q = pe_addr p /\ pe_retry q = pe_retry p /\ pe_pi_q q = pe_pi_q p)
+      by (unfold q; destruct (pe_retry p =? 0); cbn; tauto).
+    destruct Q as (Qok & Qa & Qr & Qq). clearbody q.
+    destruct (pe_diag_in_flight q); [apply Diag; assumption|].
+    unfold dx_request. rewrite Qr, Hr. eexists; eexists. split; [reflexivity|]. split; [exact Qok|]. split; [exact Qa|].
+    cbn [request_ok]. rewrite Qa. split; [apply Wf; apply Wdx|]. split; [|reflexivity].
+    unfold length_byte, dx_pdu. cbn [h_dsap h_ssap]. rewrite Qq.
+    destruct (opstate_eqb op OpOperate); rewrite ?repeat_length; cbn; lia.
+Qed.
+
+Lemma periph_ok_frame p q : periph_ok p -> pe_addr q = pe_addr p -> pe_fcb q = pe_fcb p ->
+  pe_pi_q q = pe_pi_q p -> pe_opts q = pe_opts p -> periph_ok q.
+Proof. unfold periph_ok. intros H -> -> -> ->. exact H. Qed.
+
+Lemma periph_ok_fcb p q : periph_ok p -> pe_addr q = pe_addr p -> pe_fcb q <> FcbInactive ->
+  pe_pi_q q = pe_pi_q p -> pe_opts q = pe_opts p -> periph_ok q.
+Proof. unfold periph_ok. intros (H1 & _ & H3) -> Hf -> ->. tauto. Qed.
+
+Ltac same_tac := split; [reflexivity|]; split; [assumption|]; repeat split; first [assumption|reflexivity].
+
+(* handle_diagnostics_response: total on every telegram *)
+Lemma p_handle_diag_total p t : periph_ok p ->
+  exists p1 d, p_handle_diag p t = Ok (p1, d) /\ periph_ok p1 /\ pe_addr p1 = pe_addr p /\
+               pe_state p1 = pe_state p /\ pe_retry p1 = pe_retry p.
+Proof.
+  intros Pok. pose proof Pok as (Ha & Hf & Hq & Hu & Hc).
+  assert (Same : exists p1 d, Ok (p, @None diaginfo) = Ok (p1, d) /\ periph_ok p1 /\ pe_addr p1 = pe_addr p /\
+                              pe_state p1 = pe_state p /\ pe_retry p1 = pe_retry p)
+    by (exists p, None; split; [reflexivity|]; split; [exact Pok|]; repeat split).
+  unfold p_handle_diag. destruct t as [h pdu|da sa|]; try exact Same.
+  destruct (negb (opt_eqb (h_dsap h) dp_diag_reply_dsap)); [exact Same|].
+  destruct (negb (opt_eqb (h_ssap h) dp_diag_reply_ssap)); [exact Same|].
+  destruct pdu as [|b0 [|b1 [|b2 [|b3 [|b4 [|b5 rest]]]]]]; try exact Same.
+  change (Nat.ltb (length (b0 :: b1 :: b2 :: b3 :: b4 :: b5 :: rest)) dp_diag_min_len) with false. cbv iota.
+  unfold get, dp_diag_master_pos. cbn [nth_error bind].
+  destruct (fcb_cycle_total _ Hf) as (f' & Ef & Hf').
+  match goal with |- context [if ?c then _ else Ok (pe_ext p)] => destruct c end.
+  - unfold slice_from. cbn [length Nat.leb skipn bind]. rewrite Ef. cbn [bind].
+    eexists; eexists. split; [reflexivity|]. split; [|repeat split]. eapply periph_ok_fcb; [exact Pok| | | |]; try reflexivity. exact Hf'.
+  - cbn [bind]. rewrite Ef. cbn [bind].
+    eexists; eexists. split; [reflexivity|]. split; [|repeat split]. eapply periph_ok_fcb; [exact Pok| | | |]; try reflexivity. exact Hf'.
+Qed.
+
+
+(* the Data_Exchange reply branch: total on every reply the station delivers *)
+Lemma p_receive_dx_total p t : periph_ok p -> reply_shape t ->
+  exists p1 ev, p_receive_dx p t = Ok (p1, ev) /\ periph_ok p1 /\ pe_addr p1 = pe_addr p /\ pe_fcb p1 = pe_fcb p.
+Proof.
+  intros Pok Sh. unfold p_receive_dx. destruct t as [h pdu|da sa|]; [|contradiction Sh|].
+  - destruct Sh as (st & s & ->).
+    assert (Fin : forall p1 : periph, periph_ok p1 -> pe_addr p1 = pe_addr p -> pe_fcb p1 = pe_fcb p ->
+      exists p2 ev,
+        (if Nat.eqb (length pdu) (length (pe_pi_i p1)) then
+           let* d := copy_from_slice (pe_pi_i p1) pdu in
+           Ok (set_state (set_pi_i p1 d) PsDataExchange, Some EvDataExchanged)
+         else Ok (p1, None)) = Ok (p2, ev) /\ periph_ok p2 /\ pe_addr p2 = pe_addr p /\ pe_fcb p2 = pe_fcb p).
+    { intros p1 P1 A1 F1.
+      destruct (Nat.eqb_spec (length pdu) (length (pe_pi_i p1))) as [E|E]; [|exists p1, None; same_tac].
+      unfold copy_from_slice. rewrite <- E, Nat.eqb_refl. cbn [bind].
+      eexists; eexists. split; [reflexivity|]. split; [|split; assumption].
+      eapply periph_ok_frame; [exact P1| | | |]; reflexivity. }
+    assert (Fno : forall p1 : periph, periph_ok p1 -> pe_addr p1 = pe_addr p -> pe_fcb p1 = pe_fcb p ->
+      exists p2 ev, Ok (p1, @None pevent) = Ok (p2, ev) /\ periph_ok p2 /\ pe_addr p2 = pe_addr p /\ pe_fcb p2 = pe_fcb p).
+    { intros p1 P1 A1 F1. exists p1, None. same_tac. }
+    destruct s; cbv iota beta; first [apply Fin | apply Fno]; try assumption; try reflexivity;
+      (eapply periph_ok_frame; [exact Pok| | | |]; reflexivity).
+  - destruct (negb (Nat.eqb (length (pe_pi_i p)) 0)).
+    + exists p, None. same_tac.
+    + eexists; eexists. split; [reflexivity|]. split; [|split; reflexivity].
+      eapply periph_ok_frame; [exact Pok| | | |]; reflexivity.
+Qed.
+
+(* Peripheral::receive_reply: total on every reply the station delivers, in every state *)
+Lemma p_receive_reply_total p t : periph_ok p -> reply_shape t ->
+  exists p1 ev, p_receive_reply p t = Ok (p1, ev) /\ periph_ok p1 /\ pe_addr p1 = pe_addr p.
+Proof.
+  intros Pok Sh. pose proof Pok as (Ha & Hf & Hq & Hu & Hc).
+  assert (Keep : forall q : periph, pe_addr q = pe_addr p -> pe_fcb q = pe_fcb p -> pe_pi_q q = pe_pi_q p ->
+                   pe_opts q = pe_opts p -> periph_ok q) by (intros q; apply periph_ok_frame; exact Pok).
+  assert (Sc : forall s2 : pstate,
+    exists p1 ev, (if is_sc t then let* f := fcb_cycle (pe_fcb p) in Ok (set_retry (set_state (set_fcb p f) s2) 0, @None pevent)
+                   else Ok (p, None)) = Ok (p1, ev) /\ periph_ok p1 /\ pe_addr p1 = pe_addr p).
+  { intros s2. destruct (is_sc t); [|exists p, None; same_tac].
+    destruct (fcb_cycle_total _ Hf) as (f' & Ef & Hf'). rewrite Ef. cbn [bind].
+    eexists; eexists. split; [reflexivity|]. split; [|reflexivity]. eapply periph_ok_fcb; [exact Pok| | | |]; try reflexivity. exact Hf'. }
+  assert (Fl : forall q : periph, periph_ok q -> pe_diag_in_flight q = true ->
+    exists p1 ev, (let* (p1, d) := p_handle_diag q t in
+        match d with
+        | Some di =>
+            let p2 := set_diag_needed (set_retry p1 0) false in
+            let p3 := if flags_contains (d_flags di) DF_PARAMETER_REQUIRED then set_state p2 PsWaitForParam else p2 in
+            Ok (p3, Some EvDiagnostics)
+        | None => Ok (p1, None)
+        end) = Ok (p1, ev) /\ periph_ok p1 /\ pe_addr p1 = pe_addr q).
+  { intros q Qok _. destruct (p_handle_diag_total q t Qok) as (p1 & d & E & P1 & A1 & _). rewrite E. cbn [bind].
+    destruct d as [di|]; [|exists p1, None; same_tac].
+    cbv zeta. destruct (flags_contains (d_flags di) DF_PARAMETER_REQUIRED);
+      (eexists; eexists; split; [reflexivity|]; split; [|exact A1]);
+      (eapply periph_ok_frame; [exact P1| | | |]; reflexivity). }
+  assert (Dx : forall q : periph, periph_ok q -> pe_diag_in_flight q = false ->
+    exists p1 ev, (let* (p1, ev) := p_receive_dx q t in
+        let p2 := set_retry p1 0 in let* f := fcb_cycle (pe_fcb p2) in Ok (set_fcb p2 f, ev)) = Ok (p1, ev) /\
+        periph_ok p1 /\ pe_addr p1 = pe_addr q).
+  { intros q Qok _. destruct (p_receive_dx_total q t Qok Sh) as (p1 & ev & E & P1 & A1 & F1). rewrite E. cbn [bind].
+    cbv zeta. cbn [pe_fcb set_retry]. pose proof P1 as (Pa & Pf & Pq & Pu & Pc).
+    destruct (fcb_cycle_total _ Pf) as (f' & Ef & Hf'). rewrite Ef. cbn [bind].
+    eexists; eexists. split; [reflexivity|]. split; [|exact A1]. eapply periph_ok_fcb; [exact P1| | | |]; try reflexivity. exact Hf'. }
+  unfold p_receive_reply. destruct (pe_state p) eqn:Hst.
+  - destruct (p_handle_diag_total p t Pok) as (p1 & d & E & P1 & A1 & _). rewrite E. cbn [bind].
+    destruct d; (eexists; eexists; split; [reflexivity|]; split; [|try exact A1]).
+    + eapply periph_ok_frame; [exact P1| | | |]; reflexivity.
+    + exact P1.
+  - apply Sc.
+  - apply Sc.
+  - assert (P0 : periph_ok (set_retry p 0)) by (apply Keep; reflexivity).
+    destruct (p_handle_diag_total _ t P0) as (p1 & d & E & P1 & A1 & _). rewrite E. cbn [bind].
+    destruct d as [di|].
+    + destruct (validate_outcome (d_flags di)) as [s ev]. eexists; eexists. split; [reflexivity|]. split; [|exact A1].
+      eapply periph_ok_frame; [exact P1| | | |]; reflexivity.
+    + eexists; eexists. split; [reflexivity|]. split; [|exact A1].
+      eapply periph_ok_frame; [exact P1| | | |]; reflexivity.
+  - destruct (pe_diag_in_flight p) eqn:Ei; [apply Fl|apply Dx]; assumption.
+  - destruct (pe_diag_in_flight p) eqn:Ei; [apply Fl|apply Dx]; assumption.
+Qed.
